@@ -255,12 +255,14 @@ P("C19", explanation="E3 r_list.c + E1 k_test.c", bounds={"quick": "", "thorough
 P("C05", explanation="E1 kernel k_buf.c", bounds={"quick": "", "thorough": ""}, outside="")
 
 
-def big_jobs():
+def big_jobs(with_str=False):
     # large variables: data_size 255..258 (the only kernel above data_size 8), decoded length data_size-1..data_size+1: counters that are
     # too narrow for a big variable wrap inside this bound
     w = ["end-of-scenario", "accepted-at-exact-capacity-above-255", "rejected-one-too-long", "accepted-255"]
     return [Job("k_big.hex.ds258", "k_big.c", {"VT": 3, "DSB": 258}, unwind=2 * 259 + 8, timeout=1800, samples=3000, solver="cadical",
-                required_witness=w)]
+                required_witness=w)] + \
+           ([Job("k_big.str.ds258", "k_big.c", {"VT": 4, "DSB": 258}, unwind=259 + 10, timeout=1800, samples=3000, solver="cadical",
+                 required_witness=w)] if with_str else [])
 
 
 def c05(tier):
